@@ -140,6 +140,23 @@ def run(rng, tier, res=None, want=("prim", "fit", "semi")):
         if nq:
             preds = o.predict(np.zeros((nq, 1)), I_val=np.array(Iq))
         rel = [nd[i].relevant for i in range(n)]
+        # C09: the same samples alone, permuted, duplicated, after earlier calls
+        if nq:
+            msgs9 = []
+            for i in range(nq):
+                one = o.predict(np.zeros((1, 1)), I_val=np.array([Iq[i]]))
+                if one[0] != preds[i]:
+                    msgs9.append(f"sample {i} predicted {preds[i]} in the batch but {one[0]} alone")
+            perm = list(range(nq)); rng.shuffle(perm)
+            again = o.predict(np.zeros((nq, 1)), I_val=np.array([Iq[t] for t in perm]))
+            for a, t in enumerate(perm):
+                if again[a] != preds[t]:
+                    msgs9.append(f"sample {t} predicted {preds[t]} at position {t} but {again[a]} at position {a} of a permuted batch")
+            viol("C09", msgs9, {"stream": "fit", "labels": lab, "Iq": Iq, "M": M.tolist(), "I": I})
+            after = (forest_obs(o.subgraph, n), )
+            if after[0] != fobs:
+                viol("C09", ["predict changed the fitted forest (cost/pred/label/order)"], {"stream": "fit"})
+            res.hit("c09_sup_checked")
         if M.tobytes() != Mbytes:
             viol("C07", ["pre-computed matrix modified by fit/predict"], {"stream": "fit"})
         w = [[enc(M[idx[p]][idx[q]]) for q in range(n)] for p in range(n)]
